@@ -273,6 +273,9 @@ def oracle(hist, out):
         edb, esch = unstr(edb), unstr(esch)
         if res[0] == 8:
             return f"connection {c}: {op} raised engine exception {unstr(res[1])}"
+        if op[0] == "reconnect" and (res != [0] or not dset or not sset or (cdb, csch, edb, esch) != (op[1], op[2], op[1], op[2])):
+            return (f"slot {c}: a new session connect(database={op[1]}, schema={op[2]}) gave result {res}, conn.database/schema={cdb}/{csch} "
+                    f"(set: {bool(dset)}/{bool(sset)}), CURRENT_DATABASE()/CURRENT_SCHEMA()={edb}/{esch}: the context must be set at connect")
         if op[0] == "usedb" and res == [0] and (not dset or cdb != op[1]):
             return f"connection {c}: USE DATABASE {op[1]} succeeded but conn.database={cdb}, database_set={bool(dset)}"
         if op[0] == "useschema" and res == [0] and (not sset or csch != op[2]):
